@@ -348,7 +348,7 @@ WORKLOADS = [
         stub=["none"],
     ),
     Workload(
-        name="history3d", run=run_history_c26_3d, runs={"quick": 160, "thorough": 8_000}, chunk=10, run_timeout=180.0,
+        name="history3d", leak_mb=0.2, run=run_history_c26_3d, runs={"quick": 160, "thorough": 8_000}, chunk=10, run_timeout=180.0,
         real=["MortarGrid.update_mortar / update_secondary with 2-d mortars", "porepy.grids.match_grids.match_2d", "gmsh simplex meshes of a unit cube with one orthogonal fracture (pp.mdg_library.cube_with_orthogonal_fractures)"],
         stub=["none"],
     ),
